@@ -889,40 +889,41 @@ pub(crate) mod verif_hooks {
         fields: &syn::Fields,
     ) -> syn::Result<String> {
         let attr = <FmtAttribute as syn::parse::Parse>::parse.parse2(tokens)?;
+        // Fields are separated by U+001D, list entries by U+001E, entry parts by U+001F.
         let args = attr
             .args
             .iter()
             .map(|a| {
                 format!(
-                    "[{}|{}|{}]",
+                    "{}\u{1f}{}\u{1f}{}",
                     a.alias().map(ToString::to_string).unwrap_or_default(),
                     a.expr.to_token_stream(),
                     a.expr.ident().map(ToString::to_string).unwrap_or_default(),
                 )
             })
             .collect::<Vec<_>>()
-            .join("");
+            .join("\u{1e}");
         let show = |c: Option<(crate::parsing::Expr, syn::Ident)>| {
-            c.map(|(e, t)| format!("{t}({})", e.to_token_stream()))
+            c.map(|(e, t)| format!("{t}\u{1f}{}", e.to_token_stream()))
                 .unwrap_or_else(|| "-".into())
         };
         let bounded = attr
             .bounded_types(fields)
-            .map(|(ty, tr)| format!("[{}:{tr}]", ty.to_token_stream()))
+            .map(|(ty, tr)| format!("{}\u{1f}{tr}", ty.to_token_stream()))
             .collect::<Vec<_>>()
-            .join("");
+            .join("\u{1e}");
         let deref = attr
             .additional_deref_args(fields)
-            .map(|t| format!("[{t}]"))
+            .map(|t| t.to_string())
             .collect::<Vec<_>>()
-            .join("");
+            .join("\u{1e}");
         let idents = fields
             .fmt_args_idents()
             .map(|i| i.to_string())
             .collect::<Vec<_>>()
             .join(",");
         Ok(format!(
-            "n={} args={args} emit=<{}> tc={} tcf={} bounded={bounded} deref={deref} idents={idents}",
+            "n={}\u{1d}args={args}\u{1d}emit={}\u{1d}tc={}\u{1d}tcf={}\u{1d}bounded={bounded}\u{1d}deref={deref}\u{1d}idents={idents}",
             attr.args.len(),
             attr.to_token_stream(),
             show(attr.transparent_call()),
